@@ -369,6 +369,8 @@ def write_replay(prop, engine, seed, index, case, v, tag="min"):
     os.makedirs(REPLAYS, exist_ok=True)
     body = {"property": prop, "engine": engine.name, "class": v["class"], "signature": v["signature"],
             "message": v["message"], "seed": seed, "case_index": index, "case": case}
+    if sys.flags.optimize:
+        body["python_optimize"] = True  # found under `python -O`: the replay has to run that way too
     name = "%s-%s.json" % (prop, digest(jdump(body))[:12])
     path = os.path.join(REPLAYS, name)
     with open(path, "w") as f:
@@ -382,6 +384,7 @@ def replay_fresh(path, timeout=300):
     cmd = [os.path.join(VERIF, "vcheck"), "replay", path]
     env = dict(os.environ)
     env["VERIF_QUIET_BUILD"] = "1"
+    env.pop("VERIF_SUBPASS", None)
     try:
         r = subprocess.run(cmd, env=env, capture_output=True, text=True, timeout=timeout)
     except subprocess.TimeoutExpired:
@@ -555,7 +558,9 @@ def run_check(engine, prop, tier, seed, jobs, cases=None, budget_s=None, quiet=F
             extra = engine.evidence_extra(prop, stats)
     ev["coverage"].update(extra)
     os.makedirs(EVIDENCE, exist_ok=True)
-    with open(os.path.join(EVIDENCE, prop + ".json"), "w") as f:
+    if os.environ.get("VERIF_SUBPASS"):
+        ev["coverage"]["subpass"] = os.environ["VERIF_SUBPASS"]
+    with open(os.path.join(EVIDENCE, prop + (".subpass" if os.environ.get("VERIF_SUBPASS") else "") + ".json"), "w") as f:
         json.dump(ev, f, indent=1, sort_keys=True, default=_json_default)
         f.write("\n")
 
